@@ -309,7 +309,7 @@ func applyLabelReplace(seriesId string, labelFunction *structs.LabelFunctionExpr
 
 	switch labelFunction.Replacement.KeyType {
 	case structs.IndexBased:
-		if len(extractedValuesSlice) <= labelFunction.Replacement.IndexBasedVal {
+		if labelFunction.Replacement.IndexBasedVal < 0 || len(extractedValuesSlice) <= labelFunction.Replacement.IndexBasedVal {
 			return seriesId, nil
 		}
 
